@@ -1,6 +1,6 @@
 (** C01 - learned weights follow the Rescorla-Wagner rule for every event sequence. *)
 From Coq Require Import ZArith List Bool Ring QArith Qcanon.
-From PV Require Import Bytes BinFmt Store RWSpec RWExec RWProofs Sched SchedProofs RWMain.
+From PV Require Import Bytes BinFmt Store RWSpec RWExec RWProofs Sched SchedProofs RWMain Proto NdlPipeline.
 Import ListNotations.
 
 (** the pure-Python learner ([dict_ndl], scalar or per-cue alpha, lazily
@@ -96,6 +96,36 @@ Theorem C01_parallel_openmp :
     else kget R rO n_cues m o c.
 Proof. exact openmp_any_schedule. Qed.
 Print Assumptions C01_parallel_openmp.
+
+(** the whole parallel call at the level of ids: duplicate policy, chunk files of
+    any size written by the conversion jobs, each parsed by the kernel as exactly
+    its events, chunks consumed in numeric order, any partition of the outcomes,
+    a barrier per chunk file and any interleaving inside it *)
+Theorem C01_chunk_file_parsed : forall es es' per po k,
+  prep_all po es = Some es' -> events_ok es' = true -> (1 <= per)%nat ->
+  match job_file es per po k with
+  | Some f => chunk per es' k <> [] /\ k_parse f = KOk (chunk per es' k)
+  | None => chunk per es' k = []
+  end.
+Proof. exact chunk_file_parsed. Qed.
+Print Assumptions C01_chunk_file_parsed.
+
+Theorem C01_ndl_pipeline :
+  forall (R : Type) (rO rI : R) (radd rmul rsub : R -> R -> R) (ropp : R -> R),
+    ring_theory rO rI radd rmul rsub ropp (@eq R) ->
+  forall p n_cues all parts es es' per po m trs mem o c,
+    prep_all po es = Some es' -> (1 <= per)%nat -> (length es <= m * per)%nat ->
+    (0 <= n_cues < two32)%Z -> NoDup all -> Forall oko32 all -> concat parts = all ->
+    cues_ok (okc_n n_cues) es' ->
+    files_interleaved parts (map (chunk per es') (seq 0 m)) trs ->
+    oko32 o -> okc_n n_cues c ->
+    kget R rO n_cues
+         (run_files R rO radd rmul rsub (kstore R) (kget R rO n_cues) (kset R n_cues) p parts
+                    (map (chunk per es') (seq 0 m)) trs mem) o c =
+    if mem_z o all then learn R rO rI radd rmul rsub p es' (kget R rO n_cues mem) o c
+    else kget R rO n_cues mem o c.
+Proof. exact ndl_openmp_pipeline. Qed.
+Print Assumptions C01_ndl_pipeline.
 
 (** non-vacuity: the rationals are such a ring, and a concrete run with a
     repeated cue, a late outcome and an outcome-less event succeeds *)
